@@ -46,6 +46,8 @@ PROPS = {
 }
 
 PROPS['C01'] = _shape('C01', 'cipher')
+PROPS['C01']['drivers'].append({'name': 'c01b', 'src': ['props/c01b.c'] + ALG, 'cfgs': ['std'], 'args': ''})
+PROPS['C01']['level_text'] += ' Second driver (props/c01b.c): SNOW3G-UEA2 and KASUMI-F8 bit-length jobs with every non byte-aligned bit offset 1..39, lengths 1..140 bits dense then stride boundaries to 2100, in and out of place, 1 / 5 / 17 unequal jobs in flight: destination bits [off, off+len) = source xor reference keystream and every other destination bit unchanged.'
 PROPS['C02'] = _shape('C02', 'hash/MAC/CRC')
 PROPS['C03'] = _shape('C03', 'AEAD/combined-mode')
 
